@@ -271,6 +271,37 @@ def clamped_before_validation(ff: FuncFlow) -> List[Tuple[ast.AST, str]]:
   return [(a, b) for a, b in out if not (id(a) in seen or seen.add(id(a)))]
 
 
+def none_misuse(ff: FuncFlow) -> List[Tuple[ast.AST, str]]:
+  """Two contradictions around an `is None` test (none on the pinned tree): (a) a value used as a subscript key exactly where it is
+  known to be None (`x[k] if k is None else x`); (b) a parameter that is replaced by its default exactly when the caller did pass a
+  value (`if p is not None: p = default(...)`), which also leaves None in place when nothing was passed."""
+  fi = ff.fi
+  out = []
+
+  def none_test(t):
+    return isinstance(t, ast.Compare) and len(t.ops) == 1 and isinstance(t.ops[0], ast.Is) and isinstance(
+        t.comparators[0], ast.Constant) and t.comparators[0].value is None
+  for n in ff.cfg.nodes:
+    if n.ast is None:
+      continue
+    for x in n.walk():
+      if isinstance(x, ast.Subscript) and isinstance(x.ctx, ast.Load) and isinstance(x.slice, (ast.Name, ast.Attribute)):
+        for t, pol in guards_of(ff, x):
+          if pol and none_test(t) and txt(t.left) == txt(x.slice):
+            out.append((x, f'`{txt(x)[:50]}` is evaluated where `{txt(x.slice)}` is None'))
+    st = n.ast
+    if n.kind == 'stmt' and isinstance(st, ast.Assign) and len(st.targets) == 1 and isinstance(st.targets[0], ast.Name) and st.targets[0].id in fi.params:
+      pname = st.targets[0].id
+      if any(isinstance(y, ast.Name) and y.id == pname for y in ast.walk(st.value)):
+        continue
+      for t, pol in guards_of(ff, st, implied=False):
+        if (not pol) and none_test(t) and isinstance(t.left, ast.Name) and t.left.id == pname:
+          ds = ff.defs_for(t.left)
+          if ds and all(d.kind == 'param' for d in ds):
+            out.append((st, f'`{txt(st)[:50]}` replaces `{pname}` only when the caller passed a value (and leaves None when nothing was passed)'))
+  return out
+
+
 MEMO = {'functools.lru_cache', 'functools.cache'}
 
 
@@ -354,6 +385,8 @@ def check_lints(check, funcs, rule_prefix: str = ''):
       check.ob('R-CACHE', fi, '@' + txt(d)[:60], False,
                f'the memoised result depends on more than the arguments: {w} changes at run time (backend selection, configuration), so a '
                'cached result outlives the state it was built for', node=d, exact=True)
+    for x, why in none_misuse(ff):
+      check.ob('R-NONE', fi, txt(x)[:70], False, why + ': the two arms of the None test are the wrong way round', node=x, exact=True)
     for st, pname in clamped_before_validation(ff):
       check.ob('R-VALIDATE.clamped', fi, txt(st)[:70], False,
                f'`{pname}` is clamped before the check that validates it: the check sees the clamped value, so an argument the function '
